@@ -41,6 +41,9 @@ type rec struct {
 	Class  string  // expected side: stable class of the record (counter.count, timer.lower, timer.pct, ...)
 	Ser    int     // expected side: index of the series in the snapshot
 	AnyVal bool    // decoded side: the value could not be read and that was already reported
+	// Forbidden (expected side): a record that must NOT be in the payloads - the summary statistics of a timer
+	// that carries a gsd_histogram: tag (it reports buckets only, and nothing when the bucket limit is 0).
+	Forbidden bool
 }
 
 func (r rec) key() string { return r.Name + "\x00" + r.Tags + "\x00" + r.Host }
@@ -155,11 +158,35 @@ func diffRecords(backend string, want, got []rec, tol func(want, got float64) bo
 		}
 		return m, order
 	}
-	wm, worder := index(want)
+	var positive, forbidden []rec
+	for _, r := range want {
+		if r.Forbidden {
+			forbidden = append(forbidden, r)
+		} else {
+			positive = append(positive, r)
+		}
+	}
+	wm, worder := index(positive)
 	gm, gorder := index(got)
+	// a forbidden record that is present gets its own class (unless another series legitimately owns the key)
+	reported := map[string]bool{}
+	claimed := map[string]bool{}
+	for _, f := range forbidden {
+		k := f.key()
+		if _, legit := wm[k]; legit {
+			continue
+		}
+		if g, ok := gm[k]; ok {
+			claimed[k] = true
+			if !reported[f.Class] {
+				reported[f.Class] = true
+				report(backend+":forbidden:"+f.Class, fmt.Sprintf("payload record %v (value(s) %v) is a summary statistic of a timer that carries a gsd_histogram: tag; such a timer reports bucket records only (nothing with bucket limit 0)", g.first, g.vals))
+			}
+		}
+	}
 	var unexpected []rec
 	for _, k := range gorder {
-		if _, ok := wm[k]; !ok {
+		if _, ok := wm[k]; !ok && !claimed[k] {
 			unexpected = append(unexpected, gm[k].first)
 		}
 	}
@@ -228,7 +255,10 @@ func (e *env) account(backend, cfgClass string, w *workload, payloads, records i
 	e.r.Event("records:"+backend, records)
 	mix, hist := w.typeMix()
 	if payloads >= 2 || hist {
-		e.r.Nontrivial(fmt.Sprintf("%s|%s|b%s|t%d|h%v|r%d", backend, cfgClass, batchClass(payloads), mix, hist, w.Rounds))
+		e.r.Nontrivial(fmt.Sprintf("%s|%s|b%s|t%d|h%s|r%d", backend, cfgClass, batchClass(payloads), mix, w.histClass(), w.Rounds))
+	}
+	if hist {
+		e.r.Event("hist-evals:"+w.histClass(), 1)
 	}
 	if payloads >= 2 && e.r.WantSample() && sample != nil {
 		v := sample()
@@ -329,6 +359,13 @@ func stdTimerSubs(s *series, d gostatsd.TimerSubtypes) []subm {
 	}
 	return out
 }
+
+// allTimerSubs names every summary statistic a backend of the standard naming scheme could print for a timer.
+func allTimerSubs() []string {
+	return []string{"lower", "upper", "count", "count_ps", "mean", "median", "std", "sum", "sum_squares"}
+}
+
+const gsdSummary = "timer.gsdhist-summary"
 
 // leTag is the bucket tag of a histogram timer as graphite, datadog, cloudwatch and stdout spell it.
 func leTag(bound float64) string { return "le:" + fmtBound(bound) }
